@@ -23,7 +23,7 @@ def profiles(nmax, dmax, nmin=1):
             yield ds
 
 
-def build(macro, depths, flavour=None, handler=None, lets=(), rich=False, readers=(), hpos=None, wrap=False, init_ev=False, gated=None, failop=None, hexpr_ev=False, err_after=False, capstep=False, err_defer_cap=False):
+def build(macro, depths, flavour=None, handler=None, lets=(), rich=False, readers=(), hpos=None, wrap=False, init_ev=False, gated=None, failop=None, hexpr_ev=False, err_after=False, capstep=False, err_defer_cap=False, init_form=None):
     """lets: iterable of (branch, is_mut); readers: iterable of (reader_branch, step>=1) where the capture of
     that branch-step snapshots every visible name; rich: every step >= 1 carries a capture, an error-side
     callback and a non-closure operand (C06); failop (Option flavour, sync): how a step fails — None (`=>` and_then) | "filter"
@@ -67,6 +67,12 @@ def build(macro, depths, flavour=None, handler=None, lets=(), rich=False, reader
             x = "st_o(%d, %s)" % (slot(b, 0), e)
         if init_ev and is_try:
             x = "lg(\"%d.0.i\", %s)" % (b, x)
+        # block-LIKE initial expressions (if / match / unsafe / loop) are ordinary expressions, not block captures: they are evaluated
+        # where a branch's initial value is evaluated (in the thread-spawning macros: by the branch's thread)
+        forms = {"if": "if int(%d) > -1000 { %%s } else { unreachable!() }" % OFF, "match": "match int(%d) { -1000 => unreachable!(), _ => %%s }" % OFF,
+                 "unsafe": "unsafe { %s }", "loop": "loop { break %s; }"}
+        if init_form:
+            x = forms[init_form[b % len(init_form)]] % x
         return "ready(%s)" % x if is_async else x
 
     branches = []
